@@ -3,6 +3,8 @@
 //
 //	scatter <region> <group> seed=<n> [want=<orders>]  => stores=… guard=… order=…/… lorder=… | <result>
 //	put <group> <leader store> <stores +>              => ok   (RegionScatterer.Put: an earlier decision)
+//	scatter2 <regX> <groupX> <regY> <groupY> seed=<n>  => <Y observation> ;; <X observation>   (X parked
+//	                                                      inside selectCandidates while Y runs completely)
 //	counters                                           => the scatterer's history counters
 //	sched <type> [<store>]                             => <ops proposed by Schedule, `;;`-separated> | none
 //
@@ -18,6 +20,7 @@ import (
 	"sort"
 	"strconv"
 	"strings"
+	"time"
 
 	"github.com/pingcap/kvproto/pkg/metapb"
 	"github.com/tikv/pd/pkg/mock/mockcluster"
@@ -43,6 +46,11 @@ type recCluster struct {
 	log   []string // "G<id>", "S", "F"
 	order []uint64 // store order returned by GetStores
 	rec   bool
+	// gate: the next GetStores call parks its goroutine (selectCandidates calls GetStores right after it
+	// has built the filter list of the peer it is placing) until `release` is closed
+	armed   bool
+	parked  chan struct{}
+	release chan struct{}
 }
 
 func (c *recCluster) GetStore(id uint64) *core.StoreInfo {
@@ -55,6 +63,11 @@ func (c *recCluster) GetStore(id uint64) *core.StoreInfo {
 func (c *recCluster) GetStores() []*core.StoreInfo {
 	if c.rec {
 		c.log = append(c.log, "S")
+	}
+	if c.armed {
+		c.armed = false
+		close(c.parked)
+		<-c.release
 	}
 	if len(c.order) == 0 {
 		return c.Cluster.GetStores()
@@ -164,11 +177,8 @@ func parseLog(log []string, nPeers int) (ord, special, lorder []uint64, ok bool)
 	return ord, special, lorder, i == len(log)
 }
 
-func (w *world) scatterOnce(region *core.RegionInfo, group string) (orders string, res string) {
-	w.rc.log = nil
-	w.rc.rec = true
-	op, err := w.scatterer.Scatter(region, group)
-	w.rc.rec = false
+// fmtResult renders what Scatter returned together with the iteration orders found in the call log.
+func fmtResult(op *operator.Operator, err error, log []string, nPeers int) (orders string, res string) {
 	if err != nil {
 		msg := err.Error()
 		switch {
@@ -181,29 +191,39 @@ func (w *world) scatterOnce(region *core.RegionInfo, group string) (orders strin
 		}
 		return "", "err:" + strings.ReplaceAll(msg, " ", "_")
 	}
-	ord, special, lorder, ok := parseLog(w.rc.log, len(region.GetPeers()))
+	ord, special, lorder, ok := parseLog(log, nPeers)
 	if !ok {
 		return "order=?", pdcluster.FormatOp(op)
 	}
 	return fmt.Sprintf("order=%s/%s lorder=%s", joinU(ord), joinU(special), joinU(lorder)), pdcluster.FormatOp(op)
 }
 
-func (w *world) scatter(rid uint64, group string, seed uint64, want string) (obs string, observed string) {
+func (w *world) scatterOnce(region *core.RegionInfo, group string) (orders string, res string) {
+	w.rc.log = nil
+	w.rc.rec = true
+	op, err := w.scatterer.Scatter(region, group)
+	w.rc.rec = false
+	return fmtResult(op, err, w.rc.log, len(region.GetPeers()))
+}
+
+// prep rebuilds the cluster and computes the inputs of one scatter call: the region, the store order served
+// by GetStores and the placement safeguard verdicts; errObs != "" when the call cannot be made.
+func (w *world) prep(rid uint64, seed uint64) (region *core.RegionInfo, ids []uint64, gs string, errObs string) {
 	if err := w.rebuild(); err != nil {
-		return "err:" + strings.ReplaceAll(err.Error(), " ", "_"), ""
+		return nil, nil, "", "err:" + strings.ReplaceAll(err.Error(), " ", "_")
 	}
-	region := w.cw.Regions[rid]
+	region = w.cw.Regions[rid]
 	if region == nil {
-		return "no-region", ""
+		return nil, nil, "", "no-region"
 	}
 	for _, p := range region.GetPeers() {
 		if w.rc.Cluster.GetStore(p.GetStoreId()) == nil {
-			return "unknown-store", "" // scatterRegion dereferences the store record: not exercised
+			return nil, nil, "", "unknown-store" // scatterRegion dereferences the store record: not exercised
 		}
 	}
 	// store order of this call
 	stores := w.rc.Cluster.GetStores()
-	ids := make([]uint64, 0, len(stores))
+	ids = make([]uint64, 0, len(stores))
 	for _, s := range stores {
 		ids = append(ids, s.GetID())
 	}
@@ -213,8 +233,6 @@ func (w *world) scatter(rid uint64, group string, seed uint64, want string) (obs
 		j := r.Intn(i + 1)
 		ids[i], ids[j] = ids[j], ids[i]
 	}
-	w.rc.order = ids
-	defer func() { w.rc.order = nil }()
 	// the placement safeguard verdicts (an input of the model when placement rules are on)
 	var guard []string
 	for _, p := range region.GetPeers() {
@@ -229,10 +247,28 @@ func (w *world) scatter(rid uint64, group string, seed uint64, want string) (obs
 		sort.Slice(ok, func(i, j int) bool { return ok[i] < ok[j] })
 		guard = append(guard, fmt.Sprintf("%d:%s", p.GetStoreId(), joinU(ok)))
 	}
-	gs := "-"
+	gs = "-"
 	if len(guard) > 0 {
 		gs = strings.Join(guard, ";")
 	}
+	return region, ids, gs, ""
+}
+
+func fmtObs(ids []uint64, gs, orders, res string) string {
+	pre := fmt.Sprintf("stores=%s guard=%s", joinU(ids), gs)
+	if orders != "" {
+		pre += " " + orders
+	}
+	return pre + " | " + res
+}
+
+func (w *world) scatter(rid uint64, group string, seed uint64, want string) (obs string, observed string) {
+	region, ids, gs, e := w.prep(rid, seed)
+	if e != "" {
+		return e, ""
+	}
+	w.rc.order = ids
+	defer func() { w.rc.order = nil }()
 	snapshot := w.scatterer.VerifScatterCounters()
 	var orders, res string
 	for try := 0; try < 400; try++ {
@@ -244,11 +280,64 @@ func (w *world) scatter(rid uint64, group string, seed uint64, want string) (obs
 			w.scatterer.VerifScatterRestore(snapshot)
 		}
 	}
-	pre := fmt.Sprintf("stores=%s guard=%s", joinU(ids), gs)
-	if orders != "" {
-		pre += " " + orders
+	return fmtObs(ids, gs, orders, res), strings.ReplaceAll(orders, " ", ",")
+}
+
+// scatter2 overlaps two requests on the one RegionScatterer, as the unlocked gRPC / HTTP handlers can:
+// request X is started on its own goroutine and parked inside selectCandidates of the first peer it places
+// (at the GetStores call that follows the construction of the filter list), request Y then runs from start to
+// end, then X is released.  On the pinned code this is the same as Y followed by X (nothing X did before
+// the gate depends on the counters); the observation is `<Y> ;; <X>`.
+func (w *world) scatter2(ridX uint64, groupX string, seedX uint64, ridY uint64, groupY string, seedY uint64) string {
+	regionX, idsX, gsX, e := w.prep(ridX, seedX)
+	if e != "" {
+		y, _ := w.scatter(ridY, groupY, seedY, "")
+		return y + " ;; " + e
 	}
-	return pre + " | " + res, strings.ReplaceAll(orders, " ", ",")
+	type result struct {
+		op  *operator.Operator
+		err error
+	}
+	done := make(chan result, 1)
+	w.rc.order = idsX
+	w.rc.log = nil
+	w.rc.rec = true
+	w.rc.parked = make(chan struct{})
+	w.rc.release = make(chan struct{})
+	w.rc.armed = true
+	go func() {
+		op, err := w.scatterer.Scatter(regionX, groupX)
+		done <- result{op, err}
+	}()
+	var rx result
+	finished := false
+	select {
+	case <-w.rc.parked:
+	case rx = <-done:
+		finished = true // never reached selectCandidates (pre-check failed, no peers)
+	case <-time.After(20 * time.Second):
+		panic("scatter2: request X neither parked nor finished")
+	}
+	w.rc.armed = false
+	w.rc.rec = false
+	xlog := w.rc.log
+	y, _ := w.scatter(ridY, groupY, seedY, "")
+	if !finished {
+		w.rc.log = xlog
+		w.rc.order = idsX
+		w.rc.rec = true
+		close(w.rc.release)
+		select {
+		case rx = <-done:
+		case <-time.After(20 * time.Second):
+			panic("scatter2: request X did not finish")
+		}
+		w.rc.rec = false
+		xlog = w.rc.log
+	}
+	w.rc.order = nil
+	orders, res := fmtResult(rx.op, rx.err, xlog, len(regionX.GetPeers()))
+	return y + " ;; " + fmtObs(idsX, gsX, orders, res)
 }
 
 func schedulerArgs(typ string, store string) schedule.ConfigDecoder {
@@ -437,6 +526,27 @@ func (w *world) exec(op string) (string, string) {
 			op = op + " want=" + observed
 		}
 		return obs, op
+	case "scatter2":
+		// scatter2 <regionX> <groupX> <regionY> <groupY> seed=<n>
+		if len(f) < 5 {
+			return "bad-op", op
+		}
+		ridX, _ := strconv.ParseUint(f[1], 10, 64)
+		ridY, _ := strconv.ParseUint(f[3], 10, 64)
+		gx, gy := f[2], f[4]
+		if gx == "-" {
+			gx = ""
+		}
+		if gy == "-" {
+			gy = ""
+		}
+		var seed uint64
+		for _, t := range f[5:] {
+			if strings.HasPrefix(t, "seed=") {
+				seed, _ = strconv.ParseUint(t[5:], 10, 64)
+			}
+		}
+		return w.scatter2(ridX, gx, seed, ridY, gy, seed+1), op
 	case "sched":
 		if len(f) < 2 {
 			return "bad-op", op
@@ -576,6 +686,15 @@ func genReject(r *rng.R) string {
 		}
 	}
 	return strings.Join(entries, ",")
+}
+
+func indexOf(rs []*regionState, x *regionState) int {
+	for i, r := range rs {
+		if r == x {
+			return i
+		}
+	}
+	return 0
 }
 
 func gen(w *world, t *trace.W, r *rng.R, malformed bool) {
@@ -778,6 +897,23 @@ func gen(w *world, t *trace.W, r *rng.R, malformed bool) {
 		}
 		if r.Bool(1, 3) {
 			w.run(t, "counters")
+		}
+	}
+	// overlapping requests on the one scatterer (the handlers take no lock): X is parked inside
+	// selectCandidates while Y runs completely
+	if len(regions) > 0 {
+		for k := r.Range(1, 3); k > 0; k-- {
+			x := regions[r.Intn(len(regions))]
+			y := regions[r.Intn(len(regions))]
+			if y == x && len(regions) > 1 {
+				y = regions[(r.Intn(len(regions)-1)+1+indexOf(regions, x))%len(regions)]
+			}
+			gx := pick(r, groups)
+			gy := gx
+			if r.Bool(1, 3) {
+				gy = pick(r, groups)
+			}
+			w.run(t, fmt.Sprintf("scatter2 %d %s %d %s seed=%d", x.id, gx, y.id, gy, r.Intn(1000000)))
 		}
 	}
 	w.run(t, "counters")
